@@ -237,7 +237,7 @@ class _InlineFunction(XPathFunction):
                 sequence_type += next_symbol
                 tk.occurrence = next_symbol
 
-            if not is_sequence_type(sequence_type, self.parser):
+            if not is_sequence_type(sequence_type, self.parser, nested=True):
                 if 'xs:NMTOKENS' in sequence_type \
                         or 'xs:ENTITIES' in sequence_type \
                         or 'xs:IDREFS' in sequence_type:
